@@ -46,6 +46,7 @@ def dispatch (op : String) (j : Json) : R Json :=
   | "gobRoundTrip" => opGobRoundTrip j
   | "docDecode" => opDocDecode j
   | "deepRoundTrip" => opDeepRoundTrip j
+  | "deepWF" => opDeepWF j
   | "textWrite" => opTextWrite j
   | "textRead" => opTextRead j
   | "unmarshalText" => opUnmarshalText j
